@@ -184,6 +184,12 @@ func MinInt64(a, b int64) int64 {
 	}
 	return b
 }
+func MaxInt32(a, b int32) int32 {
+	if a > b {
+		return a
+	}
+	return b
+}
 func MaxInt64(a, b int64) int64 {
 	if a > b {
 		return a
